@@ -547,3 +547,7 @@ CHECKS["C18"]["required_classes"]["all"] += ["reload:upgrades=local"]
 
 CHECKS["C16"]["jobs"].append(J("agentconcurrent", AGENT, "TestC16AgentConcurrentOps", {"shards": 2, "n": 12}, {"shards": 8, "n": 200}, toolchain="go126", rapid=False))
 CHECKS["C16"]["required_classes"]["all"] += ["agent-level-competing-adds"]
+
+CHECKS["C03"]["jobs"].append(J("agent-confinement", VTRACE, "TestC03AgentConfinement", {"shards": 3, "checks": 3}, {"shards": 16, "checks": 60}))
+CHECKS["C03"]["prebuild"] = DRV_PREBUILD + BIN_PREBUILD
+CHECKS["C03"]["required_classes"]["all"] += ["agent-traced-with-invalid-names"]
